@@ -518,6 +518,66 @@ ENTRIES = {
                     ['S', 'S2'], elems='intkey'),
     'dict-items': E('dict($c.select([$, $ * 2]))',
                     lambda L, a: {x: x * 2 for x in L}),
+    # ---- collections containing nulls (null-safe lambdas only) ------------------
+    'n-accumulate': E('$c.accumulate([$1, $2])',
+                      lambda L, a: _accumulate(L, lambda p, q: [p, q]),
+                      elems='intnull'),
+    'n-accumulate-null-seed': E('$c.accumulate([$1, $2], null)',
+                                lambda L, a: _accumulate(
+                                    L, lambda p, q: [p, q], None),
+                                elems='intnull'),
+    'n-aggregate-null-seed': E('$c.aggregate([$1, $2], null)',
+                               lambda L, a: _reduce(
+                                   L, lambda p, q: [p, q], None),
+                               elems='intnull'),
+    'n-aggregate': E('$c.aggregate(coalesce($1, $2))',
+                     lambda L, a: _reduce(
+                         L, lambda p, q: p if p is not None else q),
+                     elems='intnull'),
+    'n-first-last': E('[$c.first(7), $c.last(7), $c.len()]',
+                      lambda L, a: [_first(L, 7), _last(L, 7), len(L)],
+                      elems='intnull', kinds=('tuple', 'list')),
+    'n-indexOf': E('[$c.indexOf(null), $c.lastIndexOf(null), null in $c, '
+                   '$c.contains(null)]',
+                   lambda L, a: [_index_of(L, None), _last_index_of(L, None),
+                                 None in L, None in L],
+                   elems='intnull', kinds=('tuple', 'list')),
+    'n-distinct': E('$c.distinct()', lambda L, a: _distinct(L),
+                    elems='intnull'),
+    'n-where-null': E('$c.where($ = null).len()',
+                      lambda L, a: len([x for x in L if x is None]),
+                      elems='intnull'),
+    'n-where-notnull': E('$c.where($ != null)',
+                         lambda L, a: [x for x in L if x is not None],
+                         elems='intnull'),
+    'n-select': E('$c.select(coalesce($, -9))',
+                  lambda L, a: [x if x is not None else -9 for x in L],
+                  elems='intnull'),
+    'n-select-id': E('$c.select($)', lambda L, a: L, elems='intnull'),
+    'n-reverse': E('$c.reverse()', lambda L, a: L[::-1], elems='intnull'),
+    'n-append': E('$c.append(null, $x)', lambda L, a: L + [None, a['x']],
+                  ['x'], elems='intnull'),
+    'n-zipLongest': E('$c.zipLongest($o)',
+                      lambda L, a: _zip_longest([L, a['o']]), ['o'],
+                      elems='intnull'),
+    'n-orderBy': E('$c.orderBy($)', lambda L, a: _stable_sort(
+        L, [(lambda x: (x is not None, x if x is not None else 0), True)]),
+        elems='intnull'),
+    'n-groupBy': E('$c.groupBy($ = null)', lambda L, a: _group(
+        L, lambda x: x is None), elems='intnull'),
+    'n-toDict': E('$c.distinct().toDict($, [$])',
+                  lambda L, a: {x: [x] for x in _distinct(L)},
+                  elems='intnull'),
+    'n-any-all': E('[$c.any($ = null), $c.all($ = null), $c.any(), '
+                   '$c.takeWhile($ != null).len(), '
+                   '$c.skipWhile($ != null).len()]',
+                   lambda L, a: [any(x is None for x in L),
+                                 all(x is None for x in L), len(L) > 0,
+                                 len(list(itertools.takewhile(
+                                     lambda x: x is not None, L))),
+                                 len(list(itertools.dropwhile(
+                                     lambda x: x is not None, L)))],
+                   elems='intnull', kinds=('tuple', 'list')),
     # ---- laws ------------------------------------------------------------------------
     'law-take-skip': E('$c.take($n) + $c.skip($n)',
                        lambda L, a: (L, _nonneg(a['n']))[0], ['n'],
